@@ -137,7 +137,14 @@ def build_blocks(edzed, cfg, hist, fail_start=False):
         # is stopped and its stop_data result goes to 'fin', which was never started
         blocks['of'] = edzed.OutputFunc('of', func=lambda v: v, stop_data={'value': 'final'},
                                         on_success=edzed.Event('fin', 'put'), on_error=None)
-    blocks['inp'] = edzed.Input('inp', initdef='i0', persistent=True, allowed=None, **exp('inp'))
+    # every output change of 'inp' (incl. the one made by restoring its saved state, when the
+    # blocks created later have not been restored yet) addresses a conditional event to the other
+    # persistent blocks that always resolves to 'no event'
+    noevents = [edzed.Event(n, edzed.EventCond(None, 'vf_never_sent'),
+                            efilter=lambda d: {**d, 'value': 1})
+                for n in ('inp_ns', 'cnt', 'fsm', 'tmr', 'iexp', 'frg')] if cfg.get('noevents') else None
+    blocks['inp'] = edzed.Input('inp', initdef='i0', persistent=True, allowed=None,
+                                on_output=noevents, **exp('inp'))
     blocks['inp_ns'] = edzed.Input('inp_ns', initdef='n0', persistent=True, sync_state=False,
                                    **exp('inp_ns'))
     blocks['cnt'] = edzed.Counter('cnt', modulo=7, initdef=1, persistent=True, **exp('cnt'))
@@ -199,6 +206,7 @@ def life1(case, ctx):
         return holder['clock'].peek_time()
 
     stale = set()       # timed blocks not saved since the last step of the wall clock
+    unser = set()       # blocks whose current state the (serialising) storage cannot store
 
     def wall_expiry(blk):
         """Absolute (wall clock) expiry of the block's pending timer, from the loop's handle."""
@@ -214,6 +222,16 @@ def life1(case, ctx):
         for name in PERSISTENT:
             blk = blocks[name]
             if name in disabled:
+                continue
+            if name in unser:
+                # the write failed: the entry of the block is dropped rather than left behind
+                # with a state the block is no longer in
+                ctx.count('unstorable_state_points')
+                if blk.key in snap:
+                    info['violations'].append(
+                        ('stale-state-kept-after-save-error',
+                         f"{label}: the storage refused the state of {name}, its entry still "
+                         f"holds {snap[blk.key]!r}"))
                 continue
             try:
                 cur = copy.deepcopy(blk.get_state())
@@ -312,7 +330,24 @@ def life1(case, ctx):
                 elif op == 'ev':
                     _op, name, etype, data = step
                     stale.discard(name)
+                    unser.discard(name)
                     edzed.ExtEvent(blocks[name], etype).send(**data)
+                elif op == 'bad_ev':
+                    # a harmless, refused call: unknown event type or a missing argument; the
+                    # block, its persistence and the simulation are not affected
+                    ctx.count('harmless_refused_events')
+                    try:
+                        if step[2] == 'unknown':
+                            edzed.ExtEvent(blocks[step[1]], 'vf_nosuch_event').send()
+                        else:
+                            edzed.ExtEvent(blocks[step[1]], 'put').send()
+                    except (edzed.EdzedUnknownEvent, TypeError):
+                        pass
+                elif op == 'unser':
+                    # the new state cannot be serialised by the storage back-end (here: cannot
+                    # be copied); the save error is logged, the simulation goes on
+                    unser.add('frg')
+                    edzed.ExtEvent(blocks['frg'], 'set').send(x for x in ())
                 elif op == 'boom':
                     target = step[1] if len(step) > 1 else 'frg'
                     info['boom_target'] = target
@@ -372,7 +407,7 @@ def life1(case, ctx):
             info['violations'].append(('stop-timestamp-wrong', f"edzed-stop-time {ts!r}, stop at {t_stop!r}"))
         for name in PERSISTENT:
             blk = blocks[name]
-            if name in disabled:
+            if name in disabled or name in unser:
                 continue
             if blk.key not in snap:
                 info['violations'].append(('state-not-saved-at-stop', f"{blk.key}"))
@@ -380,6 +415,9 @@ def life1(case, ctx):
             # states as they were right before the stop (outputs do not change during stop)
             states = {}
             for name in PERSISTENT:
+                if name in unser:
+                    states[name] = None
+                    continue
                 states[name] = (copy.deepcopy(snap.get(blocks[name].key)),
                                 copy.deepcopy(blocks[name].output))
             pre = points[-1]
@@ -392,7 +430,7 @@ def life1(case, ctx):
                          f"at stop: storage[{name}] = {got!r}, the timer running before the stop "
                          f"expires at wall-clock time {want!r} (stop at {t_stop!r})"))
             for name in PERSISTENT:
-                if name in disabled:
+                if name in disabled or name in unser:
                     continue
                 if not deep_eq(snap.get(blocks[name].key), pre['states'][name][0]):
                     info['violations'].append(
@@ -632,7 +670,88 @@ def life_without_persistent_blocks(case, ctx, snapshot):
     return viol
 
 
+SMALL_KINDS = ['cnt', 'td', 'ts', 'inp_ns', 'inp', 'tmr', 'cnt2']
+
+
+def small_first_start(sc, ctx):
+    """
+    The very first start (empty or almost empty storage) of a small circuit made of a subset of
+    the persistent block kinds: right after the initialisation - before any event - the storage
+    must hold the state of every persistent block; a restart from that snapshot with other
+    defaults restores the values.
+    """
+    import edzed
+    res = {}
+
+    def build(life):
+        objs = {}
+        for kind in sc['kinds']:
+            if kind in ('cnt', 'cnt2'):
+                objs[kind] = edzed.Counter(kind, initdef=3 if life == 1 else 5, persistent=True)
+            elif kind == 'td':
+                objs[kind] = edzed.TimeDate(kind, times=TD_CHOICES[0] if life == 1 else None,
+                                            persistent=True)
+            elif kind == 'ts':
+                objs[kind] = edzed.TimeSpan(kind, span=TS_CHOICES[0] if life == 1 else (),
+                                            persistent=True)
+            elif kind == 'inp_ns':
+                objs[kind] = edzed.Input(kind, initdef='a' if life == 1 else 'b', persistent=True,
+                                         sync_state=False)
+            elif kind == 'inp':
+                objs[kind] = edzed.Input(kind, initdef='a' if life == 1 else 'b', persistent=True)
+            elif kind == 'tmr':
+                objs[kind] = edzed.Timer(kind, t_on=40.0, persistent=True)
+        objs['plain'] = edzed.Input('plain', initdef=0)
+        return objs
+
+    storage = harness.Storage(init=sc['prefill'])
+
+    async def drive1(sim, objs):
+        res['snap'] = storage.snapshot()
+        res['states'] = {k: copy.deepcopy(b.get_state()) for k, b in objs.items() if k != 'plain'}
+        res['keys'] = {k: b.key for k, b in objs.items() if k != 'plain'}
+        res['sync'] = {k: b.sync_state for k, b in objs.items() if k != 'plain'}
+        return True
+    out = harness.run_sim(lambda: build(1), drive1, storage=storage)
+    if out['exc'] is not None or not out['started']:
+        return [('harness-run-exception', f"small circuit {sc}: {out['exc']!r} "
+                 f"{out['sim'].circuit.error!r}")]
+    ctx.count('first_starts_of_small_circuits')
+    if not sc['prefill']:
+        ctx.count('first_starts_with_empty_storage')
+    viol = []
+    for kind, state in res['states'].items():
+        ctx.count('sync_points_checked')
+        key = res['keys'][kind]
+        if key not in res['snap']:
+            viol.append(('state-not-saved', f"first start of {sc}: right after the initialisation "
+                         f"{key} is missing in the storage {res['snap']!r}"))
+        elif not deep_eq(res['snap'][key], state):
+            viol.append(('saved-state-differs-from-current',
+                         f"first start of {sc}: storage[{key}] = {res['snap'][key]!r}, "
+                         f"get_state() = {state!r}"))
+    if viol:
+        return viol
+    storage2 = harness.Storage(init=res['snap'])    # crash right after the initialisation
+
+    async def drive2(sim, objs):
+        res['out2'] = {k: b.output for k, b in objs.items()}
+        return True
+    out = harness.run_sim(lambda: build(2), drive2, storage=storage2)
+    if out['exc'] is not None or not out['started']:
+        return [('restart-failed', f"small circuit {sc}, life 2: {out['exc']!r}")]
+    for kind in sc['kinds']:
+        want = {'cnt': 3, 'cnt2': 3, 'inp': 'a', 'inp_ns': 'a'}.get(kind)
+        if want is not None and res['out2'][kind] != want:
+            viol.append(('value-not-restored', f"small circuit {sc}: {kind} came up with "
+                         f"{res['out2'][kind]!r} instead of the saved {want!r}"))
+    return viol
+
+
 def run_case(case, ctx):
+    if case.get('small'):
+        for key, msg in small_first_start(case['small'], ctx):
+            ctx.violation({'small': case['small']}, key, msg)
     points, info = life1(case, ctx)
     if info['exc'] is not None:
         ctx.violation(case, 'harness-run-exception', f"life 1: {info['exc']!r}")
@@ -704,9 +823,15 @@ def random_case(rng):
             expiration[name] = rng.choice([0, -1])
     cfg = {'expiration': expiration, 'prev_stop_time': rng.random() < 0.7,
            'td_times': rng.choice(TD_CHOICES), 'ts_span': rng.choice(TS_CHOICES),
-           't_T2': rng.choice([3.0, 8.0]), 'of_first': rng.random() < 0.5}
+           't_T2': rng.choice([3.0, 8.0]), 'of_first': rng.random() < 0.5,
+           'noevents': rng.random() < 0.5}
     steps = []
     for _ in range(rng.randint(2, 8)):
+        if rng.random() < 0.08:
+            name = rng.choice(['inp', 'cnt', 'fsm', 'tmr', 'iexp'])
+            steps.append(['bad_ev', name, 'noparam' if name in ('inp', 'cnt') and rng.random() < 0.5
+                          else 'unknown'])
+            continue
         if rng.random() < 0.07:
             steps.append(['walljump', rng.choice([-307.0, -5.0, 31.0, 3607.0])])
             continue
@@ -748,6 +873,10 @@ def random_case(rng):
             st[3] = {'amount': st[3].get('value', 1)}
     case = {'cfg': cfg, 'steps': steps}
     r = rng.random()
+    if rng.random() < 0.15:
+        steps.insert(rng.randint(0, len(steps)), ['unser'])
+        if rng.random() < 0.5:
+            case['prefill'] = {"<Fragile 'frg'>": 'older'}
     if r < 0.12:
         steps.insert(rng.randint(1, len(steps)), ['boom', rng.choice(['frg', 'frg', 'frg_ns'])])
     elif r < 0.2:
@@ -763,7 +892,11 @@ def gen(ctx):
     rng = ctx.rng('gen')
     n = 60 if ctx.tier == 'quick' else 4000
     for _ in range(n):
-        yield random_case(rng)
+        case = random_case(rng)
+        kinds = [k for k in SMALL_KINDS if rng.random() < 0.35] or [rng.choice(SMALL_KINDS)]
+        case['small'] = {'kinds': kinds, 'prefill': rng.choice(
+            [{}, {}, {'edzed-custom': 1}, {'ghost-key': 0}, {'edzed-stop-time': 5.0}])}
+        yield case
 
 
 def run_shard(ctx):
@@ -776,5 +909,10 @@ def replay(rep, ctx):
     case = rep['case']
     if 'case' in case and 'point' in case:
         case = case['case']
+    if set(case) == {'small'}:
+        for key, msg in small_first_start(case['small'], ctx):
+            ctx.violation({'small': case['small']}, key, msg)
+        ctx.case_done(case, True)
+        return
     run_case(case, ctx)
     ctx.case_done(case, True)
